@@ -29,7 +29,10 @@ func runHistory(t *rapid.T, col *evid.Collector, f Focus, weights map[string]int
 		"prove":          m.opProve,
 		"peersync":       m.opPeerSync,
 		"staleOvertake":  m.opStaleOvertake,
+		"bulk":           m.opBulk,
+		"align":          m.opAlign,
 	}
+	m.actionsEnabled = weights
 	// rapid's Repeat picks actions uniformly; weights are realised by aliasing an action under
 	// several names.
 	actions := map[string]func(*rapid.T){}
@@ -227,9 +230,9 @@ func TestProp_C19_locator(t *testing.T) {
 
 // ---- real-depth legs ----------------------------------------------------------------------------
 
-const deepDesc = "REAL prune depth: a straight base chain of 9990..20050 headers (lengths around the 10000 prune depth, the 1000-header file boundaries and the automatic clean at heights 10000/20000), then up to ~100 generated operations with the real Clean / Save / Load (no hooks, MaxBranchDepth 144/30/6), including Save of an UNCONSOLIDATED best chain (the production shutdown path); heights are read individually at the recent window, file boundaries, the prune boundary, the auto-clean heights and pseudo-random positions, ranges across those boundaries, and the whole chain once at the end; "
+const deepDesc = "REAL prune depth: a straight base chain of 9990..20050 headers (lengths around the 10000 prune depth, the 1000-header file boundaries and the automatic clean at heights 10000/20000), then up to ~100 generated operations (including bulk growth of the best chain by 900..2600 headers, so that a Clean or Save starts in the middle of a header file and crosses file boundaries and a second prune follows the first, and alignment of the tip to a multiple of 1000 followed by Clean / Save / Load there) with the real Clean / Save / Load (no hooks, MaxBranchDepth 144/30/6), including Save of an UNCONSOLIDATED best chain (the production shutdown path); heights are read individually at the recent window, file boundaries, the prune boundary, the auto-clean heights and pseudo-random positions, ranges across those boundaries, and the whole chain once at the end; "
 
-var weightsDeep = map[string]int{"extend": 8, "dup": 1, "late": 1, "clean": 2, "save": 2, "reload": 2}
+var weightsDeep = map[string]int{"extend": 8, "dup": 1, "late": 1, "clean": 2, "save": 2, "reload": 2, "bulk": 1, "align": 2}
 
 func TestProp_C01_deep(t *testing.T) {
 	col := evid.For("C01", "deep", deepDesc+"oracle and non-trivial rule as in the history leg")
@@ -243,7 +246,7 @@ func TestProp_C01_deep(t *testing.T) {
 // their tips, then Cleans, small extensions and a stale fork overtaking the whole chain.
 func TestProp_C01_stale(t *testing.T) {
 	col := evid.For("C01", "stale", deepDesc+"with 2..3 STALE forks created early (drawn creation order, overlapping spans), the base length chosen so that the prune boundary of a Clean falls among their tips, and a stale fork later overtaking the whole chain (a reorganisation across the retained depth); oracle as in the history leg; non-trivial = a stale fork overtook after a Clean")
-	w := map[string]int{"extend": 3, "clean": 4, "staleOvertake": 4, "reload": 1, "save": 1}
+	w := map[string]int{"extend": 3, "clean": 4, "staleOvertake": 4, "reload": 1, "save": 1, "bulk": 1, "align": 2}
 	rapid.Check(t, func(t *rapid.T) {
 		runHistory(t, col, Focus{ID: "C01", RealDepth: true, StaleForks: true}, w, func(m *M) bool {
 			return m.k.HasClass("stale_fork_overtakes") && m.cleans > 0
@@ -275,7 +278,7 @@ func TestProp_C10_marks(t *testing.T) {
 
 func TestProp_C10_deep(t *testing.T) {
 	col := evid.For("C10", "deep", deepDesc+"before/after snapshot equality around every real Clean (and the automatic clean), verdict and lookup oracles afterwards; non-trivial = a Clean with a side branch alive")
-	w := map[string]int{"extend": 8, "late": 1, "clean": 4, "dup": 1}
+	w := map[string]int{"extend": 8, "late": 1, "clean": 4, "dup": 1, "bulk": 1, "align": 2}
 	rapid.Check(t, func(t *rapid.T) {
 		runHistory(t, col, Focus{ID: "C10", RealDepth: true, CleanSnap: true, Verdicts: true, Lookups: true}, w, func(m *M) bool {
 			return m.cleans > 0 && len(m.pools().sideTips) > 0
@@ -285,7 +288,7 @@ func TestProp_C10_deep(t *testing.T) {
 
 func TestProp_C11_deep(t *testing.T) {
 	col := evid.For("C11", "deep", deepDesc+"Save (consolidated or not) + real Load twin in lock-step as in the saveload leg; non-trivial = a side branch alive at Save")
-	w := map[string]int{"extend": 8, "late": 1, "clean": 1, "twin": 3, "reload": 1}
+	w := map[string]int{"extend": 8, "late": 1, "clean": 1, "twin": 3, "reload": 1, "bulk": 1, "align": 2}
 	rapid.Check(t, func(t *rapid.T) {
 		runHistory(t, col, Focus{ID: "C11", RealDepth: true, Twin: true, Verdicts: true, Lookups: true}, w, func(m *M) bool {
 			return m.sideAtSave > 0
@@ -295,7 +298,7 @@ func TestProp_C11_deep(t *testing.T) {
 
 func TestProp_C12_deep(t *testing.T) {
 	col := evid.For("C12", "deep", deepDesc+"every prefix of the storage writes of every real Clean/Save is loaded with the real Load (sampled heights); non-trivial = an image strictly inside an operation")
-	w := map[string]int{"extend": 8, "late": 1, "clean": 2, "save": 2}
+	w := map[string]int{"extend": 8, "late": 1, "clean": 2, "save": 2, "bulk": 1, "align": 2}
 	rapid.Check(t, func(t *rapid.T) {
 		runHistory(t, col, Focus{ID: "C12", RealDepth: true, Crash: true}, w, func(m *M) bool {
 			col.Count("crash_images", m.crashCount)
@@ -307,10 +310,10 @@ func TestProp_C12_deep(t *testing.T) {
 // ---- real-depth legs of the remaining history properties -----------------------------------------
 
 func TestProp_C07_deep(t *testing.T) {
-	col := evid.For("C07", "deep", deepDesc+"with 2..3 stale forks and subscribers registered at drawn steps: subscriber-side reconstruction as in the stream leg, including reorganisations to a stale fork across the retained depth (the announced headers start right above a fork point that is served from storage); non-trivial = a subscriber saw a reorganisation")
-	w := map[string]int{"extend": 6, "clean": 2, "staleOvertake": 3, "reload": 1, "subscribe": 2, "dup": 1, "late": 1}
+	col := evid.For("C07", "deep", deepDesc+"with 0..3 stale forks and subscribers registered at drawn steps: subscriber-side reconstruction as in the stream leg, including reorganisations to a stale fork across the retained depth (the announced headers start right above a fork point that is served from storage); non-trivial = a subscriber saw a reorganisation")
+	w := map[string]int{"extend": 6, "clean": 2, "staleOvertake": 3, "reload": 1, "subscribe": 2, "dup": 1, "late": 1, "bulk": 1, "align": 2}
 	rapid.Check(t, func(t *rapid.T) {
-		runHistory(t, col, Focus{ID: "C07", RealDepth: true, StaleForks: true, Stream: true}, w, func(m *M) bool {
+		runHistory(t, col, Focus{ID: "C07", RealDepth: true, Stream: true}, w, func(m *M) bool {
 			return m.subsCount > 0 && m.reorgs > 0
 		})
 	})
@@ -318,7 +321,7 @@ func TestProp_C07_deep(t *testing.T) {
 
 func TestProp_C08_deep(t *testing.T) {
 	col := evid.For("C08", "deep", deepDesc+"reference verdicts for every submission (orphans, duplicates on any branch, new forks at / one beyond MaxBranchDepth 144/30/6 below the best height) and the read-API snapshot around refusals; non-trivial = a depth refusal or an at-depth acceptance, and a Clean or Load")
-	w := map[string]int{"extend": 8, "dup": 2, "orphan": 1, "late": 1, "clean": 2, "reload": 1}
+	w := map[string]int{"extend": 8, "dup": 2, "orphan": 1, "late": 1, "clean": 2, "reload": 1, "bulk": 1, "align": 2}
 	rapid.Check(t, func(t *rapid.T) {
 		runHistory(t, col, Focus{ID: "C08", RealDepth: true, Verdicts: true}, w, func(m *M) bool {
 			return (m.atDepthAccept > 0 || m.beyondDepthRefuse > 0 || m.refusalClasses[VDepth] > 0) && (m.cleans > 0 || m.loads > 0)
@@ -328,7 +331,7 @@ func TestProp_C08_deep(t *testing.T) {
 
 func TestProp_C17_deep(t *testing.T) {
 	col := evid.For("C17", "deep", deepDesc+"with MarkHeaderInvalid / MarkHeaderNotInvalid / resubmission as in the marks leg (marks only on headers still held in memory: known finding C17-floor excluded by construction); non-trivial = a mark on the best chain and a Load or Clean")
-	w := map[string]int{"extend": 8, "late": 1, "clean": 1, "reload": 2, "mark": 4, "unmark": 2, "resubmitMarked": 2}
+	w := map[string]int{"extend": 8, "late": 1, "clean": 1, "reload": 2, "mark": 4, "unmark": 2, "resubmitMarked": 2, "bulk": 1, "align": 2}
 	rapid.Check(t, func(t *rapid.T) {
 		runHistory(t, col, Focus{ID: "C17", RealDepth: true, Marks: true, Verdicts: true}, w, func(m *M) bool {
 			return m.marksOnBest > 0 && (m.cleans > 0 || m.loads > 0)
@@ -338,7 +341,7 @@ func TestProp_C17_deep(t *testing.T) {
 
 func TestProp_C19_deep(t *testing.T) {
 	col := evid.For("C19", "deep", deepDesc+"locator oracle of the locator leg (max 1,2,3,10,50) with most of the back-off served from storage, and the simulated conformant peer; non-trivial = a side branch alive and a Clean or Load")
-	w := map[string]int{"extend": 8, "late": 1, "clean": 2, "reload": 1, "peersync": 4}
+	w := map[string]int{"extend": 8, "late": 1, "clean": 2, "reload": 1, "peersync": 4, "bulk": 1, "align": 2}
 	rapid.Check(t, func(t *rapid.T) {
 		runHistory(t, col, Focus{ID: "C19", RealDepth: true, Locators: true}, w, func(m *M) bool {
 			return len(m.pools().sideTips) > 0 && (m.cleans > 0 || m.loads > 0)
@@ -348,7 +351,7 @@ func TestProp_C19_deep(t *testing.T) {
 
 func TestProp_C18_deep(t *testing.T) {
 	col := evid.For("C18", "deep", deepDesc+"blocks with known transactions on the base chain at heights 1, 2, the 1000-header file boundary, both sides of the prune boundary and near the tip, plus generated blocks on side branches; proofs (header / hash / both; valid or one element corrupted) as in the merkle leg, verified before and after real Clean / Save / Load; non-trivial = a corrupted proof and a proof for a block served from storage")
-	w := map[string]int{"extend": 3, "late": 1, "clean": 2, "reload": 2, "block": 3, "prove": 10}
+	w := map[string]int{"extend": 3, "late": 1, "clean": 2, "reload": 2, "block": 3, "prove": 10, "bulk": 1, "align": 2}
 	rapid.Check(t, func(t *rapid.T) {
 		runHistory(t, col, Focus{ID: "C18", RealDepth: true}, w, func(m *M) bool {
 			col.Count("proofs", m.proofs)
